@@ -39,6 +39,13 @@ pub fn run() {
                     }
                     continue;
                 },
+                "x" => {
+                    // a complete message that is not a value of the receiver's type (one byte where a Vec<u8> needs a length)
+                    if let Some(t) = &tx {
+                        let _ = t.clone().to_opaque().to::<u8>().send(7);
+                    }
+                    continue;
+                },
                 "d" => {
                     tx = None;
                     continue;
